@@ -230,23 +230,24 @@ def run(ctx: Ctx):
                 ctx.violation(_oracle_sig(o), f"{o['kind']} ({o.get('medium', '-')}) at op {o['op']} {case['ops'][o['op']]}: {json.dumps(o)}",
                               {"case": case, "oracle": orc[:5], "from": name})
             continue
-        kinds = {o["kind"] for o in orc} or {"model-vs-impl"}
-        # Search stage, bounded: `Ctx.finish` writes ONE replay per distinct signature, so only the first failing traces of a
-        # presumptive signature are minimised (each minimisation re-runs the implementation and the driver up to 60 times); the
-        # rest are counted. Without the bound a change that breaks most traces (seeded C18-a: 563 of 920) cost 233 s.
-        pre_sig = json.dumps(_oracle_sig(orc[0]) if orc else {"kind": "model-vs-impl", "line": (r["lines"][di] if di < len(r["lines"]) else "?").split()[0]},
-                             sort_keys=True)
-        failing_by_sig[pre_sig] = failing_by_sig.get(pre_sig, 0) + 1
-        for kd in sorted({o["kind"] for o in orc} or {"model-vs-impl"}):
+        kinds = {o["kind"] for o in orc} | ({"model-vs-impl"} if di >= 0 else set())
+        # Search stage, bounded: `Ctx.finish` writes ONE replay per distinct signature, so only the first traces that show an
+        # oracle kind are minimised (each minimisation re-runs the implementation and the driver up to 60 times), and they are
+        # minimised with respect to the kinds that are still NEW (so a trace that breaks both the counter-side and the
+        # transmitted-sum oracle yields a witness for each); the rest are counted. Without the bound a change that breaks most
+        # traces (seeded C18-a: 563 of 920) cost 233 s.
+        fresh = {k for k in kinds if failing_by_sig.get(k, 0) < SHRINK_PER_SIG}
+        for kd in sorted(kinds):
+            failing_by_sig[kd] = failing_by_sig.get(kd, 0) + 1
             ctx.count("failing-trace:" + kd)
-        if failing_by_sig[pre_sig] > SHRINK_PER_SIG or shrink_spent[0] > SHRINK_WALL:
-            if failing_by_sig[pre_sig] > SHRINK_PER_SIG:
-                continue            # same class as a trace already minimised and reported
+        if not fresh:
+            continue                # every kind this trace shows has already been minimised and reported
+        if shrink_spent[0] > SHRINK_WALL:
             small, orc2, di2, r2, model2 = case, orc, di, r, model     # out of search time: reported unminimised
         else:
             t1 = time.time()
 
-            def fails(ops, case=case, kinds=kinds):
+            def fails(ops, case=case, kinds=fresh):
                 return _fails(dict(case, ops=ops), kinds)
             small = dict(case, ops=shrink_ops(case["ops"], fails, budget=60))
             try:
@@ -267,7 +268,7 @@ def run(ctx: Ctx):
                 ctx.violation(_oracle_sig(o), f"{o['kind']} ({o.get('medium', '-')}) at op {o['op']} "
                               f"{small['ops'][o['op']] if 0 <= o['op'] < len(small['ops']) else '-'}: {json.dumps(o)}",
                               {"case": small, "kind": o["kind"], "oracle": orc2[:5], "lines": r2["lines"], "impl": r2["impl"], "from": name})
-        else:
+        if di2 >= 0:
             q = r2["lines"][di2] if di2 < len(r2["lines"]) else "?"
             what = ("the far interface's answer differs from C08's acceptance model (farAnswer)" if q.startswith("far ")
                     else "link accounting differs from the proved model")
